@@ -22,6 +22,27 @@ cp /verif/known-findings.txt "$S/verif/" 2>/dev/null
 # re-point every /repo reference (Cargo.toml path deps, #[path] includes, include_str!) at the copy
 grep -rlE '/repo(/|")' "$S/verif/harness" --include=Cargo.toml --include='*.rs' --include='*.sh' 2>/dev/null | xargs -r sed -i "s#/repo\([/\"]\)#$S/repo\1#g"
 cd "$S/verif/harness"
+# build only what this check needs: other crates may be mid-edit by someone else
+python3 - "$PKG" <<'PY'
+import re, sys, os
+pkg = sys.argv[1]
+need, todo = {"vcore"}, [pkg]
+while todo:
+    c = todo.pop()
+    if c in need and c != pkg and c != "vcore":
+        continue
+    need.add(c)
+    try:
+        t = open(os.path.join(c, "Cargo.toml")).read()
+    except OSError:
+        continue
+    for m in re.finditer(r'path\s*=\s*"\.\./([A-Za-z0-9_-]+)"', t):
+        if m.group(1) not in need:
+            todo.append(m.group(1))
+ws = open("Cargo.toml").read()
+ws = re.sub(r'members = \[.*?\]', 'members = [' + ", ".join('"%s"' % c for c in sorted(need)) + ']', ws, flags=re.S)
+open("Cargo.toml", "w").write(ws)
+PY
 export CARGO_TARGET_DIR="$S/target" CARGO_NET_OFFLINE=true VERIF_DIR="$S/verif"
 if ! cargo build --release -p "$PKG" 2>"$S/build.log"; then
   tail -30 "$S/build.log"
